@@ -393,6 +393,10 @@ class CaseOracle:
             self.stats["exercised"].add(self._kind(x))
 
         # ---- C06
+        for e in evs:
+            if e["k"] == "enter" and str(e.get("c", "")).startswith("EHD_"):
+                # an error handler that opted out of imports (`default = false`) and is registered nowhere
+                out.append(V("C06", "unregistered_error_handler_ran", {"req": req_brief(req), "handler": e["c"], "err": e.get("err")}))
         observers = m.observers(hid)
         for (idx, fe) in fails:
             f = fe["c"]
